@@ -20,7 +20,9 @@ Inductive case :=
 | CExtract (tp ts : bytes) (o o_nots : obs_ext)
 | CRound (t s : bytes) (fl : N) (ts : bytes) (ts_orig_str inj_tp inj_ts : bytes) (o : obs_ext)
 | CParse (s : bytes) (o : option (list (bytes * bytes)))
-| CEdit (s0 s0_str : bytes) (ops : list edit) (obs : list (bool * bytes)).
+| CEdit (s0 s0_str : bytes) (ops : list edit) (obs : list (bool * bytes))
+| CHexId (n : nat) (h : bytes) (o : option bytes)
+| CGet (s : bytes) (k : bytes) (len : nat) (v : bytes).
 
 Definition model_obs (tp ts : bytes) : obs_ext :=
   match extract tp ts with
@@ -127,6 +129,23 @@ Definition check_case (c : case) : list N :=
             | Some l => bytes_eqb s0_str (ts_string l) && obs_list_eqb (model_edits l ops) obs
             end) V_MISMATCH ++
       flag (w3c_tracestate_b s0_str && spec_edits s0_str ops obs) V_SPECFAIL
+  | CHexId n h o =>
+      flag (option_eqb bytes_eqb (id_from_hex n h) o) V_MISMATCH ++
+      flag (match o with
+            | Some b => Nat.eqb (length b) n && negb (forallb (fun x => x =? 0) b) &&
+                        bytes_eqb (hex_encode b) h && forallb lchex h
+            | None => negb (Nat.eqb (length h) (2 * n) && forallb lchex h && nonzero_hex h)
+            end) V_SPECFAIL
+  | CGet s k len v =>
+      flag (match parse_tracestate s with
+            | None => false
+            | Some l => Nat.eqb (length l) len && bytes_eqb (ts_get l k) v
+            end) V_MISMATCH ++
+      flag (match members_of s with
+            | Some l => Nat.eqb (length l) len &&
+                        bytes_eqb v (match find (fun m => bytes_eqb (fst m) k) l with Some m => snd m | None => [] end)
+            | None => false
+            end) V_SPECFAIL
   end.
 
 Definition run (cs : list case) : list (N * N) := index_from 0 check_case cs.
